@@ -451,7 +451,7 @@ func TestVerifC02(t *testing.T) {
 		}
 	})
 
-	n := r.N(4000, 900000)
+	n := r.N(4000, 160000)
 	r.Cases("hist", n, func(i int, id string, rng *vk.Rand) {
 		h := hGenerate(rng, false)
 		if r.WantSample() {
